@@ -166,6 +166,11 @@ func (nt *Net) runSolo() *Result {
 	}
 	res.Done = true
 	res.Steps = nt.Steps
+	if nt.Sc.Extra == "solo-long-height" && n.alive && n.lastStore < 1 {
+		rs := n.cs.VerifRoundState()
+		nt.Mon.report("C12", map[string]string{"kind": "height-never-decides", "driver": "solo-long-height"},
+			fmt.Sprintf("two completely delivered rounds (proposal, all prevotes, all precommits) at the end of the script do not make the node commit; it sits at height %d round %d step %v", rs.Height, rs.Round, rs.Step))
+	}
 	res.Viols = nt.Mon.viols
 	res.fill(nt)
 	if n.alive {
